@@ -323,6 +323,17 @@ func checkC09(c *Check) {
 		run := newSandbox()
 		defer os.RemoveAll(run)
 		rr := RunBash(run, tr.Script, RunOpts{Timeout: 20 * time.Second})
+		if rr.TimedOut {
+			verdict, r2 := DecideTimeout(tr.Script, 200*ref.Steps+20000, RunOpts{}, newSandbox)
+			if verdict == "finished" {
+				rr = r2
+			} else if verdict == "inconclusive" {
+				c.Inconclusive("bash watchdog fired twice without a step-limit verdict")
+				return
+			} else {
+				problems = append(problems, "script does not terminate (step limit exceeded)")
+			}
+		}
 		files["observed.stdout"] = rr.Stdout
 		files["observed.stderr"] = rr.Stderr
 		if rr.Stdout != ref.Stdout {
